@@ -1,0 +1,27 @@
+//go:build verif
+
+// Contracts for the deductive verifier under /verif (gvc). This file contains no
+// declarations: it is comment-only and excluded from normal builds by the tag.
+
+package slicecache
+
+//@ spec func allCached(c *FileShardCache) bool = forall(j, 0, len(c.shardIsCached), c.shardIsCached[j])
+
+//@ func slicecache.(*FileShardCache).IsCached
+//@   panics_if c != nil && (shard < 0 || shard >= len(c.shardIsCached))
+//@   ensures  nil-means-miss: implies(c == nil, !result)
+//@   ensures  lookup: implies(c != nil, result == c.shardIsCached[shard])
+//@   modifies nothing
+
+//@ func slicecache.(*FileShardCache).RequireAllCached
+//@   ensures  all-or-nothing: implies(c != nil, forall(i, 0, len(c.shardIsCached),
+//@              c.shardIsCached[i] == old(allCached(c))))
+//@   ensures  flag: implies(c != nil, c.requireAll)
+//@   ensures  shape: implies(c != nil, c.shardIsCached == old(c.shardIsCached) && c.prefix == old(c.prefix) && c.numShards == old(c.numShards))
+//@   modifies c.requireAll, c.shardIsCached[:]
+//@   loop 1 invariant forall(j, 0, range_idx, old(c.shardIsCached[j]))
+//@   loop 1 invariant forall(j, 0, len(c.shardIsCached), c.shardIsCached[j] == old(c.shardIsCached[j]))
+//@   loop 1 invariant c.shardIsCached == old(c.shardIsCached) && c.requireAll
+//@   loop 2 invariant forall(j, 0, i, !c.shardIsCached[j])
+//@   loop 2 invariant c.shardIsCached == old(c.shardIsCached) && c.requireAll && 0 <= i
+//@   loop 2 invariant exists(j, 0, len(c.shardIsCached), !old(c.shardIsCached[j]))
